@@ -220,6 +220,40 @@ fn check_type(ty: SignType, name: &str, expect: Option<(u8, u8, u32, u32)>, rep:
     // ... and a block of the SAME family and id whose size bytes are off (it decodes to the same type: only the first two
     // bytes decide that) followed, without a reset, by the genuine block: what counts is the last block — the sign reports
     // this type AND stores pages of this type's size
+    // ... and the block is accepted whatever the sign has been through before: transfers that were opened and left with a
+    // goodbye (after one or two counted chunks, after a count that failed), a reset handshake, pages — then the
+    // configuration, a page of the type's size and a query, the reference sign deciding at every message
+    if block.len() == 16 && w > 0 && h > 0 {
+        let own = 0x0026u16;
+        let pasts: Vec<Vec<RefMsg>> = vec![
+            vec![RefMsg::Request(own, O_RECV_CFG), RefMsg::Data { offset: 0, data: block.clone() }, RefMsg::Goodbye(own)],
+            vec![RefMsg::Request(own, O_RECV_CFG), RefMsg::Data { offset: 0, data: block.clone() }, RefMsg::Data { offset: 0, data: block.clone() }, RefMsg::Goodbye(own)],
+            vec![RefMsg::Request(own, O_RECV_CFG), RefMsg::Data { offset: 0, data: block.clone() }, RefMsg::Count(2), RefMsg::Goodbye(own)],
+            vec![RefMsg::Request(own, O_RECV_CFG), RefMsg::Data { offset: 0, data: block.clone() }, RefMsg::Count(1), RefMsg::Request(own, O_RECV_PIX), RefMsg::Data { offset: 0, data: vec![7; 16] }, RefMsg::Data { offset: 16, data: vec![7; 16] }, RefMsg::Goodbye(own)],
+            vec![RefMsg::Request(own, O_RECV_CFG), RefMsg::Data { offset: 0, data: block.clone() }, RefMsg::Request(own, O_START_RESET), RefMsg::Request(own, O_FINISH_RESET)],
+            vec![RefMsg::Request(own, O_RECV_CFG), RefMsg::Data { offset: 0, data: block.clone() }, RefMsg::Count(1), RefMsg::Request(own, O_RECV_PIX), RefMsg::Data { offset: 0, data: vec![7; 16] }, RefMsg::Request(own, O_START_RESET), RefMsg::Request(own, O_FINISH_RESET)],
+        ];
+        let img = RefPage::new(9, w, h).image();
+        for (pi, past) in pasts.iter().enumerate() {
+            for auto in [false, true] {
+                let mut msgs = past.clone();
+                msgs.extend([RefMsg::Hello(own), RefMsg::Request(own, O_RECV_CFG), RefMsg::Data { offset: 0, data: block.clone() }, RefMsg::Count(1), RefMsg::Query(own), RefMsg::Request(own, O_RECV_PIX)]);
+                msgs.extend(img.chunks(16).enumerate().map(|(i, c)| RefMsg::Data { offset: (i * 16) as u16, data: c.to_vec() }));
+                msgs.extend([RefMsg::Count(img.len().div_ceil(16) as u16), RefMsg::Query(own), RefMsg::Complete(own), RefMsg::Query(own)]);
+                let mut pair = Pair::new(own, auto);
+                for (k, m) in msgs.iter().enumerate() {
+                    let out = vsx::step(&mut pair, m);
+                    let trouble = if out.panic.is_some() { Some("panicked".to_string()) } else { out.diffs.first().map(|(cls, d)| format!("{}: {}", cls, d)) };
+                    if let Some(t) = trouble {
+                        let what = format!("past #{} ({}), then the configuration: at message #{} ({}): {}", pi, past.iter().map(|m| m.show().chars().take(14).collect::<String>()).collect::<Vec<_>>().join(" "), k, m.show().chars().take(30).collect::<String>(), t);
+                        rep.violation(MON_T, "virtual_sign_refuses_the_block_after_a_past", &format!("{}:past{}:{}", name, pi, auto), format!("{}: {}", name, what), J::obj(vec![("type", J::s(name)), ("past", J::Arr(past.iter().map(|m| J::s(m.show())).collect())), ("observed", J::s(what.clone()))]));
+                        break;
+                    }
+                }
+                rep.count("virtual_sign_configured_after_a_past");
+            }
+        }
+    }
     if block.len() == 16 && w > 0 && h > 0 {
         let own = 0x0025u16;
         let img = RefPage::new(6, w, h).image();
@@ -684,6 +718,7 @@ pub fn run(ctx: &Ctx) -> Outcome {
         floor("a 16-byte chunk of neither family next to the block, for every type", report.get("virtual_sign_noise_chunk_next_to_the_block") >= 11 * 14, report.get("virtual_sign_noise_chunk_next_to_the_block")),
         floor("a block of the same family and id with other size bytes before the genuine block, then a page of the genuine size, for every type", report.get("virtual_sign_off_size_block_before_the_genuine_one") >= 11 * 4, report.get("virtual_sign_off_size_block_before_the_genuine_one")),
         floor("a block of a supported family and id with other size fields alone, then a page of the size those fields give", report.get("virtual_sign_off_size_block_alone") >= 30, report.get("virtual_sign_off_size_block_alone")),
+        floor("every type's block after six pasts (transfers left with a goodbye after counted chunks, reset handshakes), both flip styles, then a page and its completion", report.get("virtual_sign_configured_after_a_past") == 11 * 12, report.get("virtual_sign_configured_after_a_past")),
         floor("an unsupported block after a supported one, for every type", report.get("virtual_sign_unsupported_block_after_supported") >= 44, report.get("virtual_sign_unsupported_block_after_supported")),
         floor("virtual sign reconfigured from every other type (11 x 10 x 2 histories)", report.get("virtual_sign_reconfigurations") == 220, report.get("virtual_sign_reconfigurations")),
         floor("virtual sign configured with every type's block", report.get("virtual_sign_configurations") >= 11, report.get("virtual_sign_configurations")),
